@@ -451,6 +451,9 @@ def harnesses(tier):
         add(h_author_config, 'author_config', dict(cls=cls), 'construction + repeated grading')
     for cls in ('string', 'formula', 'list', 'item-base'):
         add(h_registered_defaults, 'registered_defaults', dict(cls=cls), 'kwargs / dict / empty / overriding configuration', validate=False)
+    import vchecks.c08 as c08
+    add(c08.h_matrix_messages, 'matrix_messages', dict(length=2), 'all sequences of 2 calls over 3 MatrixGraders x 4 inputs: no grader sees another one\'s wrong_msg', validate=False)
+    add(c08.h_formula_messages, 'formula_messages', dict(length=2), 'all sequences of 2 calls over 3 FormulaGraders', validate=False)
     add(h_default_removal, 'default_removal', {}, '4 grader classes x 3 default constants suppressed with None, then one fresh grader of every class', validate=False)
     add(h_debug_mix, 'debug_mix', {}, 'parent debug x subgrader debug x prior solo call x 4 subgrader kinds, symbolic samples', validate=False)
     add(h_shared_parser, 'shared_parser', dict(length=2), 'all sequences of 2 failing or fine calls (7 kinds) on one grader, each followed by a fresh string on another grader', validate=False)
